@@ -9,7 +9,7 @@ PROPS = {
     "C05": {"level": "proof", "lemma_files": ENGINE, "conformance": []},
     "C06": {"level": "proof", "lemma_files": ENGINE + ["contracts/storage_laws.py"], "conformance": []},
     "C07": {"level": "proof", "lemma_files": ENGINE, "conformance": []},
-    "C08": {"level": "proof", "lemma_files": ENGINE + ["contracts/state_index.py"], "conformance": []},
+    "C08": {"level": "proof", "lemma_files": ENGINE + ["contracts/state_index.py", "contracts/codec_laws.py"], "conformance": []},
     "C09": {"level": "proof", "lemma_files": ["contracts/storage_laws.py"], "conformance": [],
             "bounded": ["contracts.bounded_storage.run"]},
     "C10": {"level": "proof", "lemma_files": ENGINE, "conformance": []},
